@@ -217,6 +217,9 @@ func wrap(pre []bind, body string) string {
 // ---------------------------------------------------------------- types
 
 func (t *tr) parseType(e ast.Expr) typ {
+	if ty, ok := t.parseTypeExt3(e); ok {
+		return ty
+	}
 	if ty, ok := t.parseTypeExt(e); ok {
 		return ty
 	}
@@ -294,6 +297,9 @@ func bytesLit(s string) string {
 // expr: the checked sub-expressions (index, slice, make, calls) are bound to
 // temporaries, in Go's left-to-right evaluation order, before the term is used.
 func (t *tr) expr(e ast.Expr) ([]bind, string, typ) {
+	if pre, s, ty, ok := t.exprExt3(e); ok {
+		return pre, s, ty
+	}
 	if pre, s, ty, ok := t.exprExt(e); ok {
 		return pre, s, ty
 	}
@@ -418,6 +424,9 @@ func (t *tr) binary(x *ast.BinaryExpr) ([]bind, string, typ) {
 		}
 		return pre, "(" + a + " || " + b + ")", tBool
 	}
+	if s, ty, ok := t.binaryExt3(x, a, ta, b, tb); ok {
+		return pre, s, ty
+	}
 	if s, ty, ok := t.binaryExt(x, a, ta, b, tb); ok {
 		return pre, s, ty
 	}
@@ -494,6 +503,9 @@ func (t *tr) coerce(n ast.Node, term string, from, to typ) string {
 func (t *tr) call(x *ast.CallExpr) ([]bind, string, typ) {
 	if x.Ellipsis != token.NoPos {
 		t.un(x, "call with ...")
+	}
+	if pre, s, ty, ok := t.callExt3(x); ok {
+		return pre, s, ty
 	}
 	if pre, s, ty, ok := t.callExt(x); ok {
 		return pre, s, ty
@@ -776,6 +788,9 @@ func (t *tr) errIdiom(s *ast.IfStmt) (ast.Expr, bool) {
 }
 
 func (t *tr) stmt(s ast.Stmt, last bool, rest func() string) string {
+	if out, ok := t.stmtExt3(s, last, rest); ok {
+		return out
+	}
 	if out, ok := t.stmtExt(s, last, rest); ok {
 		return out
 	}
@@ -1090,6 +1105,9 @@ func (t *tr) forStmt(x *ast.ForStmt, rest func() string) string {
 }
 
 func (t *tr) rangeStmt(x *ast.RangeStmt, rest func() string) string {
+	if out, ok := t.rangeExt3(x, rest); ok {
+		return out
+	}
 	if x.Tok == token.DEFINE && x.Value == nil && x.Key != nil {
 		return t.rangeIdx(x, rest)
 	}
@@ -1286,6 +1304,7 @@ func translate(f *fnInfo, fns map[string]*fnInfo, used map[string]bool, usedCons
 		}
 	}
 	f.usesRecv = usesReceiver(f, fns, t.consts)
+	t.setupExt3()
 	t.setupExt()
 	for _, p := range f.params {
 		t.declare(d, p.name, p.ty)
@@ -1310,7 +1329,7 @@ func translate(f *fnInfo, fns map[string]*fnInfo, used map[string]bool, usedCons
 	var sig strings.Builder
 	fmt.Fprintf(&sig, "Definition src_%s%s", d.Name.Name, extSig(f))
 	if f.usesRecv {
-		fmt.Fprintf(&sig, " (%s : view)", coqName(f.recv))
+		fmt.Fprintf(&sig, " (%s : %s)", coqName(f.recv), recvCoqType3(f))
 	}
 	for _, p := range f.params {
 		fmt.Fprintf(&sig, " (%s : %s)", coqName(p.name), coqType[p.ty])
@@ -1471,7 +1490,7 @@ func main() {
 			fmt.Fprintf(&b, "     .%s = %s   (a constant: the string literal every composite literal of the\n       receiver's type sets, never assigned; read from the source)\n", k, usedConsts[k])
 		}
 	}
-	fmt.Fprintf(&b, "%s*)\nFrom Tab Require Import Base.GoSem%s.\nLocal Open Scope Z_scope.\n", libHeader()+extHeader(), libImport())
+	fmt.Fprintf(&b, "%s*)\nFrom Tab Require Import Base.GoSem%s.\nLocal Open Scope Z_scope.\n", libHeader()+extHeader()+extHeader3(), libImport()+extImport3())
 	for _, d := range defs {
 		b.WriteString("\n")
 		b.WriteString(d)
